@@ -75,9 +75,12 @@ def c01_1(ctx: Ctx) -> RuleResult:
     for f, c in estimator_sinks(ctx, "calculate_function"):
         wt = weights_arg(ctx, f, c, 1)
         ok, why, inner = check_weights_pipeline(ctx, f, wt)
+        from .common import pipeline_frame
+
+        f_src, wt_src = pipeline_frame(ctx, f, wt)
         if inner is None:
-            inner = wt
-        _check_sources(ctx, res, f, c, inner, "function values")
+            inner = wt_src
+        _check_sources(ctx, res, f_src, c, inner, "function values")
     return res
 
 
